@@ -16,7 +16,22 @@ TB = ["correspondence harness harness/overlay/index/zz_verif_c04_test.go (genera
       "not; thorough tier runs a -race stress test as supporting evidence only"]
 
 
+def _apply_replay(ctx):
+    """--replay <file>: re-run the check with the seed recorded in the replay (the failing case index and
+    inputs are in the file; the harness is deterministic in the seed)."""
+    if ctx.replay:
+        try:
+            import json as _json
+            d = _json.load(open(ctx.replay))
+            seed = (d.get("replay") or {}).get("seed")
+            if seed is not None:
+                ctx.seed = int(seed)
+        except Exception:
+            pass
+
+
 def run(ctx):
+    _apply_replay(ctx)
     pid = ctx.pid
     proofs = vf.coq_props(ctx, pid)
     broken, failures = [], []
